@@ -255,7 +255,7 @@ func genPolluter(t *rapid.T) string {
 	arg := func() string {
 		return rapid.SampledFrom([]string{"1", "41", "“a”", "【1】", "真", "数值", "-0.5"}).Draw(t, "parg")
 	}
-	switch rapid.IntRange(0, 15).Draw(t, "pk") {
+	switch rapid.IntRange(0, 16).Draw(t, "pk") {
 	case 0: // redefine the constructor of a predefined / library type
 		cls := rapid.SampledFrom([]string{"异常", "异常", "HTTP响应", "HTTP请求", "数值", "显示"}).Draw(t, "ccls")
 		imp := ""
@@ -321,6 +321,16 @@ func genPolluter(t *rapid.T) string {
 		default:
 			return fileProg("导入“坏”\n输出1", "坏", tool, "工具", tool)
 		}
+	case 15: // predefined values changed in place through an indirect route
+		mut := rapid.SampledFrom([]string{"自增：41", "自减：9"}).Draw(t, "imut")
+		return rapid.SampledFrom([]string{
+			"如何累加？\n    输入甲\n    以甲（" + mut + "）\n    输出甲\n输出（累加：数值）",
+			"输出以【数值】#1（" + mut + "）",
+			"输出以【“k” = 数值】#“k”（" + mut + "）",
+			"如何取？\n    输出数值\n（取）得到乙\n以乙（" + mut + "）\n输出乙",
+			"定义盒：\n    其量 = 0\n令甲盒 = （新建盒）\n甲盒之量 = 数值\n以甲盒之量（" + mut + "）\n输出甲盒之量",
+			"以甲遍历【数值】：\n    以甲（" + mut + "）\n输出数值",
+		}).Draw(t, "indirect")
 	case 14: // number literals changed in place
 		return rapid.SampledFrom([]string{"输出以4100（自增：1）", "输出以4100（自减：7）", "如何步？\n    输入计\n    以计（自增：1）\n    输出计\n输出（步：7300）", "如何步？\n    输出4100\n（步）得到甲\n以甲（自增：3）\n输出甲"}).Draw(t, "numlit")
 	case 13: // a value handed out by a library, changed in place without being rebound (得到 / argument)
@@ -344,6 +354,14 @@ type seqCase struct {
 
 func replay(sub string, raw json.RawMessage) ([]h.Failure, error) {
 	switch sub {
+	case "reexecution":
+		var c struct {
+			Src string `json:"src"`
+		}
+		if err := json.Unmarshal(raw, &c); err != nil {
+			return nil, err
+		}
+		return checkReExecution(c.Src), nil
 	case "sequence":
 		var c seqCase
 		if err := json.Unmarshal(raw, &c); err != nil {
@@ -457,6 +475,10 @@ func TestKnownPolluters(t *testing.T) {
 		"导入《@测试库》\n令物 = （新建HTTP响应：200、“x”）\n以物之头部（写入：“z”、1）\n输出1",
 		"以“1*^3”（转换数值）\n输出1",
 		"令真 = 0\n输出1",
+		// a predefined value reaching an in-place method by an indirect route
+		"如何累加？\n    输入甲\n    以甲（自增：41）\n    输出甲\n输出（累加：数值）",
+		"输出以【数值】#1（自增：41）",
+		"如何取？\n    输出数值\n（取）得到乙\n以乙（自减：9）\n输出乙",
 		// a number literal changed in place (literal as receiver / handed straight to a method)
 		"输出以4100（自增：1）",
 		"如何步？\n    输入计\n    以计（自增：1）\n    输出计\n输出（步：7300）",
@@ -545,6 +567,66 @@ func TestConcurrentHandlers(t *testing.T) {
 		}
 		h.R.Case(t, "concurrent", fmt.Sprint("round-", round, "-", n), map[string]int{"round": round, "goroutines": n}, []string{"concurrent-round"}, true, fails)
 	}
+}
+
+func checkReExecution(mainSrc string) []h.Failure {
+	z := exec.NewInterpreter("verif").SetExternalLibs(libs()).LoadScript([]rune(mainSrc))
+	var first string
+	var fails []h.Failure
+	for i := 0; i < 3; i++ {
+		var res result
+		var val r.Element
+		var err error
+		var kind, msg, site string
+		out := h.Capture(func() {
+			kind, msg, site = h.Guard(func() { val, err = z.Execute(r.ElementMap{}) })
+		})
+		switch {
+		case kind != "":
+			res.Kind, res.Error = kind, msg+" @"+site
+		case err != nil:
+			res.Kind, res.Error = "error", exec.DisplayError(err)
+		default:
+			o := &h.Outcome{}
+			h.FillValue(o, val)
+			res.Kind, res.Type, res.Text = o.Kind, o.ValType, o.ValText
+		}
+		if out != "" {
+			res.Trace = strings.Split(strings.TrimSuffix(out, "\n"), "\n")
+		}
+		got := normalise(res)
+		if i == 0 {
+			first = got
+		} else if got != first {
+			fails = append(fails, h.Failure{Sig: "reexecution/outcome-differs", Msg: fmt.Sprintf("program loaded once with LoadScript:\n%s\nexecution 1: %s\nexecution %d: %s", mainSrc, first, i+1, got)})
+			break
+		}
+	}
+	return fails
+}
+
+// TestReExecution - ONE loaded script (or file) executed several times: every execution starts
+// from the same program text and state, so all of them give the same outcome
+func TestReExecution(t *testing.T) {
+	extra := []string{
+		"输出“a`TAB`b`CRLF`c`SP`d`BK`e”",
+		"输出【“x`U+4E2D`y”，“左`」`右”，“`LF``LF`”】",
+		"令甲 = “`U+1F600`” + “尾”\n（显示：甲）\n输出甲之长度",
+		"注：「含`CR`的注释」\n输出“完`TAB`”",
+	}
+	progs := append(append([]string{}, probes...), extra...)
+	for _, src := range progs {
+		mainSrc, _, isFile := splitFileProg(src)
+		if isFile {
+			continue // (file programs are re-read from disk for every execution)
+		}
+		if strings.Contains(src, "取随机数") {
+			continue
+		}
+		fails := checkReExecution(mainSrc)
+		h.R.Case(t, "reexecution", src, map[string]string{"src": src}, []string{"loaded-once-executed-thrice"}, true, fails)
+	}
+	h.R.Exhaustive("reexecution", fmt.Sprintf("%d programs, each loaded once and executed three times", len(progs)))
 }
 
 func TestCorpus(t *testing.T) { h.RunCorpus(t, "c16", replay) }
